@@ -244,6 +244,12 @@ def by_key(kind):
 
 
 FN = {}
+FN[r'DelayedObjects::ctor'] = dict(
+    props='C18', requires=['!vf_exc'],
+    ensures=[('C18', 'self->promiseByInteger.size == 0 && !self->promiseByInteger.has_f && self->promiseByString.size == 0 && !self->promiseByString.has_f && '
+                     'self->usedPromiseByInteger.size == 0 && !self->usedPromiseByInteger.has_f && self->usedPromiseByString.size == 0 && !self->usedPromiseByString.has_f && '
+                     '!self->promiseLock.excl_me && self->promiseLock.shared_me == 0 && !vf_exc', 'a new container has no pending and no completed promises and is unlocked')],
+    assigns='*self')
 for kind, w in (('int', lambda fm: 'index' in ' '.join(fm['params'])), ('str', lambda fm: 'name' in ' '.join(fm['params']))):
     isf, pend, used, fss, gp, gu = by_key(kind)
     FN.setdefault(r'DelayedObjects::setDelayedValue', []).append(entry(where=w, pre=' && !vf_user_threw', setup_extra=' g_copy_may_throw = vf_nondet_bool();', ensures=[
